@@ -1,0 +1,539 @@
+//! Verification hooks. Compiled only with `--features verif`.
+//!
+//! Everything in here is inert until a harness arms it:
+//! * an event log of state writes, task creations and generated messages,
+//!   ordered by one sequence number taken under one mutex;
+//! * an in-flight counter so a harness can decide quiescence without sleeping;
+//! * a gate that parks `Queue::send` signals, spawned launches / sub-process
+//!   returns and event dispatches until the harness releases them;
+//! * a virtual clock and a manual tick;
+//! * read-only accessors (live process dump, node tree dump, store handle).
+#![allow(missing_docs)]
+#![allow(clippy::type_complexity)]
+
+use crate::{
+    Engine, Message,
+    scheduler::{Node, Process, Signal, Task},
+    store::Store,
+};
+use serde_json::{Value, json};
+use std::{
+    cell::RefCell,
+    sync::{
+        Arc, Mutex,
+        atomic::{AtomicBool, AtomicI64, Ordering},
+    },
+};
+
+// ------------------------------------------------------------------------------------------
+// event log
+
+struct Log {
+    on: bool,
+    seq: u64,
+    events: Vec<Value>,
+}
+
+static LOG: Mutex<Log> = Mutex::new(Log {
+    on: false,
+    seq: 0,
+    events: Vec::new(),
+});
+
+/// start / stop recording
+pub fn log_enable(on: bool) {
+    LOG.lock().unwrap().on = on;
+}
+
+/// take the recorded events (in sequence order)
+pub fn log_drain() -> Vec<Value> {
+    let mut log = LOG.lock().unwrap();
+    std::mem::take(&mut log.events)
+}
+
+/// record an event from the harness side under the same sequence
+pub fn log_push(v: Value) {
+    emit(v);
+}
+
+fn emit(mut v: Value) {
+    let mut log = LOG.lock().unwrap();
+    if !log.on {
+        return;
+    }
+    log.seq += 1;
+    if let Value::Object(map) = &mut v {
+        map.insert("seq".to_string(), json!(log.seq));
+    }
+    log.events.push(v);
+}
+
+fn opt(v: Option<String>) -> Value {
+    match v {
+        Some(v) => json!(v),
+        None => json!("nil"),
+    }
+}
+
+pub(crate) fn on_task_state(task: &Task, old: &crate::TaskState, via: &str) {
+    emit(json!({
+        "ev": "w",
+        "pid": task.pid,
+        "tid": task.id,
+        "nid": task.node().id(),
+        "kind": task.node().kind().to_string(),
+        "old": old.to_string(),
+        "new": task.state().to_string(),
+        "err": opt(task.err().map(|e| e.ecode)),
+        "via": via,
+    }));
+}
+
+pub(crate) fn on_proc_state(proc: &Process, old: &crate::TaskState, via: &str) {
+    emit(json!({
+        "ev": "pw",
+        "pid": proc.id(),
+        "old": old.to_string(),
+        "new": proc.state().to_string(),
+        "via": via,
+    }));
+}
+
+pub(crate) fn on_task_created(task: &Task, how: &str) {
+    emit(json!({
+        "ev": "mk",
+        "pid": task.pid,
+        "tid": task.id,
+        "nid": task.node().id(),
+        "kind": task.node().kind().to_string(),
+        "uses": task.node().uses(),
+        "level": task.node().level,
+        "prev": opt(task.prev()),
+        "state": task.state().to_string(),
+        "how": how,
+    }));
+}
+
+thread_local! {
+    static LAST_GEN: RefCell<(String, String)> = const { RefCell::new((String::new(), String::new())) };
+}
+
+pub(crate) fn on_gen(what: &str, msg: &Message) {
+    LAST_GEN.with(|g| *g.borrow_mut() = (what.to_string(), msg.id.clone()));
+    emit(json!({
+        "ev": "gen",
+        "what": what,
+        "id": msg.id,
+        "pid": msg.pid,
+        "tid": msg.tid,
+        "nid": msg.nid,
+        "mid": msg.mid,
+        "name": msg.name,
+        "type": msg.r#type,
+        "state": msg.state.as_ref(),
+        "key": msg.key,
+        "uses": msg.uses,
+        "tag": msg.tag,
+        "mtag": msg.model.tag,
+        "retry": msg.retry_times,
+        "inputs": Value::from(msg.inputs.clone()),
+        "outputs": Value::from(msg.outputs.clone()),
+    }));
+}
+
+pub(crate) fn on_return(action: &crate::Action, ret: &crate::Result<()>) {
+    emit(json!({
+        "ev": "ret",
+        "pid": action.pid,
+        "tid": action.tid,
+        "action": action.event.as_ref(),
+        "res": match ret {
+            Ok(_) => "ok".to_string(),
+            Err(e) => format!("err:{e}"),
+        },
+    }));
+}
+
+pub(crate) fn on_gen_tick() {
+    LAST_GEN.with(|g| *g.borrow_mut() = ("tick".to_string(), String::new()));
+}
+
+// ------------------------------------------------------------------------------------------
+// in-flight counter
+
+static INFLIGHT: AtomicI64 = AtomicI64::new(0);
+
+pub(crate) fn inflight_inc() {
+    INFLIGHT.fetch_add(1, Ordering::SeqCst);
+}
+
+pub(crate) fn inflight_dec() {
+    INFLIGHT.fetch_sub(1, Ordering::SeqCst);
+}
+
+/// number of queue sends not yet executed plus spawned internal jobs not yet finished
+pub fn inflight() -> i64 {
+    INFLIGHT.load(Ordering::SeqCst)
+}
+
+// ------------------------------------------------------------------------------------------
+// gate on Queue::send
+
+struct ParkedSignal {
+    sender: Arc<tokio::sync::mpsc::Sender<Signal>>,
+    sig: Signal,
+}
+
+static GATE_ARMED: AtomicBool = AtomicBool::new(false);
+static GATE: Mutex<Vec<ParkedSignal>> = Mutex::new(Vec::new());
+
+pub fn gate_arm(on: bool) {
+    GATE_ARMED.store(on, Ordering::SeqCst);
+}
+
+/// returns true when the signal was parked (the caller must not send it)
+pub(crate) fn gate_park(sender: &Arc<tokio::sync::mpsc::Sender<Signal>>, sig: &Signal) -> bool {
+    if let Signal::Terminal = sig {
+        return false;
+    }
+    if !GATE_ARMED.load(Ordering::SeqCst) {
+        // not parked: the send goes ahead and counts as in flight until it has been executed
+        inflight_inc();
+        return false;
+    }
+    GATE.lock().unwrap().push(ParkedSignal {
+        sender: sender.clone(),
+        sig: sig.clone(),
+    });
+    true
+}
+
+/// (pid, tid) of every parked task signal, in arrival order
+pub fn gate_list() -> Vec<(String, String)> {
+    GATE.lock()
+        .unwrap()
+        .iter()
+        .filter_map(|p| match &p.sig {
+            Signal::Task(t) => Some((t.pid.clone(), t.id.clone())),
+            Signal::Terminal => None,
+        })
+        .collect()
+}
+
+/// really send one parked signal; must be called inside the engine's tokio runtime
+pub fn gate_release(pid: &str, tid: &str) -> bool {
+    let parked = {
+        let mut gate = GATE.lock().unwrap();
+        let pos = gate.iter().position(|p| match &p.sig {
+            Signal::Task(t) => t.pid == pid && t.id == tid,
+            Signal::Terminal => false,
+        });
+        match pos {
+            Some(pos) => gate.remove(pos),
+            None => return false,
+        }
+    };
+    inflight_inc();
+    let ParkedSignal { sender, sig } = parked;
+    tokio::runtime::Handle::current().spawn(async move { sender.send(sig).await });
+    true
+}
+
+/// drop every parked signal (used when a scenario is abandoned)
+pub fn gate_clear() {
+    GATE.lock().unwrap().clear();
+}
+
+// ------------------------------------------------------------------------------------------
+// parked spawns: process launch, sub-process return, event dispatch
+
+pub struct ParkedJob {
+    pub kind: String,
+    pub a: String,
+    pub b: String,
+    job: Box<dyn FnOnce() + Send>,
+}
+
+static SPAWN_ARMED: AtomicBool = AtomicBool::new(false);
+static DISPATCH_ARMED: AtomicBool = AtomicBool::new(false);
+static JOBS: Mutex<Vec<ParkedJob>> = Mutex::new(Vec::new());
+
+/// park `Runtime::launch` and `Runtime::return_to_act` jobs
+pub fn spawn_arm(on: bool) {
+    SPAWN_ARMED.store(on, Ordering::SeqCst);
+}
+
+/// park message / start / complete / error / tick dispatches
+pub fn dispatch_arm(on: bool) {
+    DISPATCH_ARMED.store(on, Ordering::SeqCst);
+}
+
+pub(crate) fn spawn_armed() -> bool {
+    SPAWN_ARMED.load(Ordering::SeqCst)
+}
+
+pub(crate) fn dispatch_armed() -> bool {
+    DISPATCH_ARMED.load(Ordering::SeqCst)
+}
+
+pub(crate) fn park_job(kind: &str, a: &str, b: &str, job: Box<dyn FnOnce() + Send>) {
+    JOBS.lock().unwrap().push(ParkedJob {
+        kind: kind.to_string(),
+        a: a.to_string(),
+        b: b.to_string(),
+        job,
+    });
+}
+
+pub(crate) fn park_dispatch(event_name: &str, job: Box<dyn FnOnce() + Send>) {
+    let (what, id) = LAST_GEN.with(|g| g.borrow().clone());
+    park_job(&format!("dispatch:{event_name}"), &what, &id, job);
+}
+
+/// (kind, a, b) of every parked job, in arrival order
+pub fn jobs_list() -> Vec<(String, String, String)> {
+    JOBS.lock()
+        .unwrap()
+        .iter()
+        .map(|j| (j.kind.clone(), j.a.clone(), j.b.clone()))
+        .collect()
+}
+
+/// run the parked job at `index` on the calling thread
+pub fn job_run(index: usize) -> bool {
+    let job = {
+        let mut jobs = JOBS.lock().unwrap();
+        if index >= jobs.len() {
+            return false;
+        }
+        jobs.remove(index)
+    };
+    (job.job)();
+    true
+}
+
+pub fn jobs_clear() {
+    JOBS.lock().unwrap().clear();
+}
+
+// ------------------------------------------------------------------------------------------
+// virtual clock
+
+static VCLOCK_ON: AtomicBool = AtomicBool::new(false);
+static VNOW_MS: AtomicI64 = AtomicI64::new(0);
+static VSTAMP: AtomicI64 = AtomicI64::new(0);
+
+/// switch to a virtual clock reading `millis`; `timestamp()` becomes strictly increasing
+pub fn clock_set(millis: i64) {
+    VNOW_MS.store(millis, Ordering::SeqCst);
+    VSTAMP.store(millis * 1000, Ordering::SeqCst);
+    VCLOCK_ON.store(true, Ordering::SeqCst);
+}
+
+pub fn clock_advance(millis: i64) -> i64 {
+    let now = VNOW_MS.fetch_add(millis, Ordering::SeqCst) + millis;
+    // keep the micro stamp ahead of the clock
+    let _ = VSTAMP.fetch_max(now * 1000, Ordering::SeqCst);
+    now
+}
+
+pub fn clock_off() {
+    VCLOCK_ON.store(false, Ordering::SeqCst);
+}
+
+pub fn clock_now() -> i64 {
+    crate::utils::time::time_millis()
+}
+
+pub(crate) fn virtual_millis() -> Option<i64> {
+    if VCLOCK_ON.load(Ordering::SeqCst) {
+        return Some(VNOW_MS.load(Ordering::SeqCst));
+    }
+    None
+}
+
+pub(crate) fn virtual_timestamp() -> Option<i64> {
+    if VCLOCK_ON.load(Ordering::SeqCst) {
+        return Some(VSTAMP.fetch_add(1, Ordering::SeqCst) + 1);
+    }
+    None
+}
+
+/// fire one tick now (the same call the interval task makes)
+pub fn tick(engine: &Engine) {
+    engine.runtime().emitter().emit_tick();
+}
+
+// ------------------------------------------------------------------------------------------
+// accessors
+
+/// forget everything: log, gate, jobs, counter, clock, arms
+pub fn reset() {
+    gate_arm(false);
+    spawn_arm(false);
+    dispatch_arm(false);
+    gate_clear();
+    jobs_clear();
+    clock_off();
+    INFLIGHT.store(0, Ordering::SeqCst);
+    let mut log = LOG.lock().unwrap();
+    log.on = false;
+    log.seq = 0;
+    log.events.clear();
+}
+
+/// the engine's store (registered collections)
+pub fn store(engine: &Engine) -> Arc<Store> {
+    engine.runtime().cache().store()
+}
+
+/// pids currently held by the cache
+pub fn cached_pids(engine: &Engine) -> Vec<String> {
+    let mut pids: Vec<String> = engine
+        .runtime()
+        .cache()
+        .procs()
+        .iter()
+        .map(|p| p.id().to_string())
+        .collect();
+    pids.sort();
+    pids
+}
+
+/// drop a process from the cache without touching the store
+pub fn evict(engine: &Engine, pid: &str) {
+    engine.runtime().cache().verif_uncache(pid);
+}
+
+fn task_json(t: &Arc<Task>) -> Value {
+    let mut hooks: Vec<String> = t.hooks().keys().map(|k| format!("{k:?}")).collect();
+    hooks.sort();
+    json!({
+        "tid": t.id,
+        "nid": t.node().id(),
+        "kind": t.node().kind().to_string(),
+        "uses": t.node().uses(),
+        "key": t.node().key(),
+        "tag": t.node().tag(),
+        "level": t.node().level,
+        "state": t.state().to_string(),
+        "prev": opt(t.prev()),
+        "err": match t.err() {
+            Some(e) => json!({"ecode": e.ecode, "message": e.message}),
+            None => json!("nil"),
+        },
+        "data": Value::from(t.data()),
+        "hooks": hooks,
+        "start_time": t.start_time(),
+        "end_time": t.end_time(),
+        "timestamp": t.timestamp,
+    })
+}
+
+fn proc_json(p: &Arc<Process>) -> Value {
+    let mut tasks = p.tasks();
+    tasks.sort_by_key(|t| t.timestamp);
+    json!({
+        "pid": p.id(),
+        "mid": p.model().id,
+        "state": p.state().to_string(),
+        "err": match p.err() {
+            Some(e) => json!({"ecode": e.ecode, "message": e.message}),
+            None => json!("nil"),
+        },
+        "env": Value::from(p.env()),
+        "start_time": p.start_time(),
+        "end_time": p.end_time(),
+        "tasks": tasks.iter().map(task_json).collect::<Vec<_>>(),
+    })
+}
+
+/// the live (cached) process as the engine holds it; `None` when it is not in the cache.
+/// Never triggers a load from the store.
+pub fn dump_proc(engine: &Engine, pid: &str) -> Option<Value> {
+    engine
+        .runtime()
+        .cache()
+        .procs()
+        .iter()
+        .find(|p| p.id() == pid)
+        .map(proc_json)
+}
+
+/// the process through `cache.proc()`, i.e. loading it from the store on a miss
+pub fn load_proc(engine: &Engine, pid: &str) -> Option<Value> {
+    let rt = engine.runtime();
+    rt.cache().proc(pid, &rt).as_ref().map(proc_json)
+}
+
+fn node_json(n: &Arc<Node>) -> Value {
+    let children = n.children.read().unwrap();
+    let kids: Vec<Value> = children
+        .iter()
+        .map(|c| {
+            json!({
+                "typ": format!("{:?}", c.typ),
+                "on": opt(c.on.clone()),
+                "node": node_json(&c.node),
+            })
+        })
+        .collect();
+    let next = match n.next().upgrade() {
+        Some(next) => json!(next.id()),
+        None => json!("nil"),
+    };
+    let prev = match n.prev().upgrade() {
+        Some(prev) => json!(prev.id()),
+        None => json!("nil"),
+    };
+    let parent = match n.parent() {
+        Some(p) => json!(p.id()),
+        None => json!("nil"),
+    };
+    // a node reached through a `next` link hangs off its predecessor
+    let follow = match n.next().upgrade() {
+        Some(next) if next.level == n.level && next.prev().upgrade().map(|p| p.id == n.id).unwrap_or(false) => {
+            node_json(&next)
+        }
+        _ => json!("nil"),
+    };
+    json!({
+        "id": n.id(),
+        "kind": n.kind().to_string(),
+        "level": n.level,
+        "uses": n.uses(),
+        "key": n.content.key(),
+        "name": n.name(),
+        "tag": n.tag(),
+        "next": next,
+        "prev": prev,
+        "parent": parent,
+        "children": kids,
+        "follow": follow,
+        "content": serde_json::to_value(&n.content).unwrap_or(Value::Null),
+    })
+}
+
+/// the node tree the engine builds for a model (`None` if the model is rejected)
+pub fn dump_tree(model: &crate::Workflow) -> std::result::Result<Value, String> {
+    let mut tree = crate::scheduler::NodeTree::new();
+    tree.load(model).map_err(|e| e.to_string())?;
+    match tree.root() {
+        Some(root) => Ok(json!({
+            "root": node_json(&root),
+            "error": match &tree.error { Some(e) => json!(e.to_string()), None => json!("nil") },
+        })),
+        None => Err("no root".to_string()),
+    }
+}
+
+/// the node tree of a live process (includes nodes added at run time)
+pub fn dump_proc_tree(engine: &Engine, pid: &str) -> Option<Value> {
+    engine
+        .runtime()
+        .cache()
+        .procs()
+        .iter()
+        .find(|p| p.id() == pid)
+        .and_then(|p| p.tree().root().map(|r| node_json(&r)))
+}
